@@ -77,8 +77,8 @@ class Loss(functional.Functional):
         self.scale = scale
 
         # Set functional-specific flags
-        self.has_eval = True
-        if self.f is not None and isinstance(self.A, linop.Identity):
+        self.has_eval = True if self.f is None else bool(self.f.has_eval)
+        if self.f is not None and self.f.has_prox and isinstance(self.A, linop.Identity):
             self.has_prox = True
         else:
             self.has_prox = False
